@@ -1,12 +1,12 @@
 //! C03 - privacy loss is never under-reported; each DP aggregation fits its budget (DESIGN 3).
 use crate::budget;
 use crate::c01;
-use crate::engine::{DrawMode, DrawPlan, Role};
+use simcommon::engine::{DrawMode, DrawPlan, Role};
 use crate::ir::{self, NoiseMap};
 use crate::oracle::*;
 use crate::owners;
 use crate::pipeline;
-use crate::scenario::{Scenario, TableSpec};
+use simcommon::scenario::{Scenario, TableSpec};
 use qrlew::differential_privacy::DpEvent;
 use qrlew::relation::Variant as _;
 use serde_json::json;
